@@ -54,13 +54,21 @@ MANIFEST = dict(
          "used in ONE process on every run (edited copies of the shipped kernel under the same file name in other directories, before and after "
          "the shipped one by name and by path; user kernels with the same name in different directories / same stem with another extension; "
          "byte copies under another name): every fit is judged against the file actually passed (kernel isotherms read from the file text at the "
-         "file's own pressure nodes, or parsed with an empty cache), and the cache model is executed in Coq on the recorded history.",
+         "file's own pressure nodes, or parsed with an empty cache), and the cache model is executed in Coq on the recorded history. "
+         "bspline (math_utilities.py): its integer bookkeeping - degree clamp, knot vector, sampled parameter range - is regenerated on every run "
+         "(Gen/BsplineGen.v, tools/py2v_bspline.py); theorem: for ANY number of pore widths >= 1 and any order >= 1 the degree handed to splev is "
+         "min(order, widths-1), the knot vector has widths+degree+1 entries inside [0, widths-degree] and the sampled range is not degenerate (partial: "
+         "splev itself is an oracle); the generated definitions are executed in Coq against the degree / knots / range scipy's splev really received "
+         "in every fit of the run. Generated cases include user kernels of 1, 2, 3, 4 pore widths x orders 0-3 (all outputs finite, non-negative, "
+         "cumulative = running integral, fitted isotherm = kernel combination) and psd_dft_kernel_fit on descending / shuffled / one-point-out-of-place "
+         "pressure grids (per-point outputs reported at the position of the point passed).",
     note="Trusted: Coq kernel; Reals axioms as Print Assumptions reports; oracles scipy.optimize.minimize(SLSQP) (post-condition x>=0, len x = "
          "number of widths is a premise), scipy.interpolate.interp1d cubic (raises ValueError outside its range: premise), bspline/splev for "
          "degree>0 (no contract); searchsorted modelled for ascending pressures; carrier argument RNum/QNum; harness hooks on "
          "psd_kernel.optimize / psd_kernel.bspline (module attributes replaced in the harness process only) to record the oracle answers.",
     technique="Coq proof of solver glue with oracle premises + in-Coq execution of the model on recorded oracle answers + certificate checking")
 
+EXTRA_TARGETS = ['Charact/KernelShow.vo', 'Charact/Bspline.vo']
 HEADER = """From Coq Require Import QArith ZArith List.
 From PG Require Import Lib.Num Lib.Py Lib.Show Charact.Kernel Charact.KernelShow.
 Import ListNotations.
@@ -126,6 +134,7 @@ class Hooks:
 
     def __init__(self):
         self.x = None; self.fun = None; self.success = None; self.spline = None; self.loads = []
+        self.knots = None       # (number of control points, degree REQUESTED, knot vector and degree bspline handed to scipy's splev)
 
     def __enter__(self):
         m = pk()
@@ -147,8 +156,22 @@ class Hooks:
                 return r
 
         def bs(xs, ys, *a, **kw):
-            r = hook.o_bs(xs, ys, *a, **kw)
+            import scipy.interpolate as si
             deg = kw.get('degree', a[1] if len(a) > 1 else 2)
+            o_splev = si.splev
+
+            def splev(x, tck, *a2, **kw2):
+                try:
+                    hook.knots = (len(xs), int(deg), [int(v) for v in np.asarray(tck[0]).tolist()], int(tck[2]),
+                                  float(np.asarray(x)[0]), float(np.asarray(x)[-1]))
+                except Exception:  # noqa
+                    hook.knots = (len(xs), int(deg), None, None, None, None)
+                return o_splev(x, tck, *a2, **kw2)
+            si.splev = splev
+            try:
+                r = hook.o_bs(xs, ys, *a, **kw)
+            finally:
+                si.splev = o_splev
             hook.spline = (int(deg), np.array(r[0], dtype=float), np.array(r[1], dtype=float))
             return r
         m.optimize, m.bspline, m._load_kernel = Opt(), bs, lk
@@ -184,9 +207,9 @@ def call_psd(c, p=None, l=None):
 
 
 # ------------------------------------------------------------------ user kernels
-def write_user_kernel(rnd, d, i, name=None):
-    m = rnd.randint(4, 10)
-    npz = rnd.randint(8, 20)
+def write_user_kernel(rnd, d, i, name=None, m=None, npz=None):
+    m = rnd.randint(4, 10) if m is None else m
+    npz = rnd.randint(8, 20) if npz is None else npz
     w = np.cumsum([rnd.uniform(0.3, 0.8)] + [rnd.uniform(0.05, 0.6) for _ in range(m - 1)])
     pmax = rnd.choice([0.5, 0.9, 0.95, 1.0])
     pr = np.sort(np.exp([rnd.uniform(np.log(1e-5), np.log(pmax)) for _ in range(npz - 1)] + [np.log(pmax)]))
@@ -398,6 +421,41 @@ def gen_cases(tier, seed, udir):
             hi = p[i] if rnd.random() < 0.25 else 0.5 * (p[i - 1] + p[i])
         cases.append(dict(kind='fit', path=path, shipped=(path == kernels[0]), p=p, l=[float(v) for v in l], w=[float(v) for v in w], lo=lo, hi=hi,
                           order=ci % 4, weights=pat, scale=scale, grid=kind, limits=lm, direct=False, by_name=(path == kernels[0] and ci % 3 == 0)))
+    # ---- boundary sizes of user-supplied kernels: 1, 2, 3, 4 pore widths (and few pressure rows) x every spline order 0..3, through
+    # psd_dft and through psd_dft_kernel_fit (there also with 1-2 isotherm points)
+    for rep_ in range(3 if tier == 'thorough' else 1):
+        for m in (1, 2, 3, 4):
+            path = write_user_kernel(rnd, os.path.join(udir, 'small'), 0, name='small_%d_%d_s%d_%s.csv' % (m, rep_, seed, tier), m=m, npz=rnd.choice([3, 4, 5, 8]))
+            keys, widths, k, klo, khi = load(path)
+            fk, fp, ft = read_csv_plain(path)
+            for order in (0, 1, 2, 3):
+                # pressures = nodes of the file (a cubic interpolator through so few, widely spaced nodes overshoots between them: the
+                # kernel isotherms are read from the file TEXT); at least three points (psd_dft refuses fewer)
+                direct = rnd.random() < 0.5
+                p = sorted(rnd.sample(fp, rnd.randint(3, len(fp))))
+                pat, scale, w = gen_weights(rnd, len(keys))
+                l = (kernel_matrix_text(path, p) * w[:, None]).sum(axis=0)
+                cases.append(dict(kind='fit', path=path, shipped=False, p=p, l=[float(v) for v in l], w=[float(v) for v in w], lo=None, hi=None,
+                                  order=order, weights=pat, scale=scale, grid='%d-widths/file-nodes' % m, limits='none', direct=direct, by_name=False,
+                                  text_nodes=True))
+    # ---- psd_dft_kernel_fit on pressure grids that are NOT ascending (descending = raw desorption data, shuffled, one point out of place):
+    # every output that is reported per point is reported at the position of the point that was passed
+    for ci in range(60 if tier == 'thorough' else 8):
+        path = kernels[0] if rnd.random() < 0.5 else rnd.choice(kernels[1:])
+        keys, widths, k, klo, khi = load(path)
+        kind, p = gen_grid(rnd, klo, khi, float(k[keys[0]].x[1]), rnd.randint(6, 30))
+        pat, scale, w = gen_weights(rnd, len(keys))
+        how = ('descending', 'shuffled', 'one-out-of-place')[ci % 3]
+        if how == 'descending':
+            p = p[::-1]
+        elif how == 'shuffled':
+            rnd.shuffle(p)
+        else:
+            i, j = rnd.sample(range(len(p)), 2)
+            p.insert(j, p.pop(i))
+        l = (kernel_matrix(path, p) * w[:, None]).sum(axis=0)
+        cases.append(dict(kind='fit', path=path, shipped=(path == kernels[0]), p=p, l=[float(v) for v in l], w=[float(v) for v in w], lo=None, hi=None,
+                          order=ci % 4, weights=pat, scale=scale, grid='direct-' + how, limits='none', direct=True, by_name=False))
     # refusal: a pressure of the window outside the kernel's range; and (correspondence only) windows with < 3 points
     nref = 60 if tier == 'thorough' else 12
     for ci in range(nref):
@@ -493,7 +551,7 @@ def brief(c):
 
 
 def run(rep, tier, seed):
-    vlib.standard_proof_phase(rep, 'C18', extra_targets=['Charact/KernelShow.vo'])
+    vlib.standard_proof_phase(rep, 'C18', extra_targets=EXTRA_TARGETS)
     udir = os.path.join(vlib.SCRATCH, 'c18_%d' % os.getpid())
     os.makedirs(udir, exist_ok=True)
     try:
@@ -516,6 +574,7 @@ def explore(rep, tier, seed, udir):
     rnd = random.Random(seed * 7 + 1)
     results = {}
     history = []
+    knots = []
 
     def fail(c, clause, what, extra=None):
         d = brief(c); d['clause'] = clause
@@ -560,6 +619,14 @@ def explore(rep, tier, seed, udir):
         pw = [c['p'][i] for i in ins]; lw = np.array([c['l'][i] for i in ins])
         if any((c['lo'] is not None and x < c['lo']) or (c['hi'] is not None and x > c['hi']) for x in pw) or mn < 0 or mx >= len(c['p']):
             fail(c, 'window-holds-outside-point', 'reported limits %r include a point outside the requested limits' % (res['limits'],))
+        if h.knots is not None:
+            knots.append((ci, h.knots))
+        # 0 every reported number is a number
+        if not all(np.isfinite(v).all() for v in (W, D, C, KL)):
+            fail(c, 'non-finite-output', 'non-finite values in %s (kernel of %d pore widths, spline order %d)' % (
+                [nm for nm, v in (('pore_widths', W), ('pore_distribution', D), ('pore_volume_cumulative', C), ('kernel_loading', KL)) if not np.isfinite(v).all()],
+                len(load(c['path'])[0]), c['order']))
+            continue
         # 1 non-negative distribution
         stats['min_distribution'] = min(stats['min_distribution'], float(D.min()))
         if not (D >= -NONNEG_TOL).all() or not np.isfinite(D).all():
@@ -668,6 +735,34 @@ def explore(rep, tier, seed, udir):
         except RuntimeError as e:
             rep.broken_obligation('correspondence:kernel-cache-model-evaluation', str(e)[-600:])
         rep.cov['kernel_cache_history'] = {'load_calls': len(history), 'distinct_files': len(paths), 'distinct_contents': len(ids)}
+    # ---- the GENERATED integer bookkeeping of bspline (Gen/BsplineGen.v) executed inside Coq on every recorded bspline call of degree > 0:
+    # the degree and the knot vector scipy's splev received, and the end of the sampled parameter range, must be the generated ones
+    if knots:
+        hdr = ('From Coq Require Import ZArith List.\nFrom PG Require Import Charact.BsplineLib Gen.BsplineGen.\nImport ListNotations. Open Scope Z_scope.\n'
+               'Fixpoint zl_eqb (a b : list Z) : bool := match a, b with [] , [] => true | x :: r, y :: q => Z.eqb x y && zl_eqb r q | _, _ => false end.\n'
+               'Definition knots_ok (count d k rend : Z) (kv : list Z) : list Z :=\n'
+               '  let k\' := bspline_open_degree count d in\n'
+               '  [if Z.eqb k\' k then 1 else 0; if zl_eqb (bspline_open_knots count k\') kv then 1 else 0; if Z.eqb (bspline_open_range_end count k\') rend then 1 else 0].\n')
+        kterms, kown = [], []
+        for ci, (cnt, d, kv, k, r0, r1) in knots:
+            if kv is None or r1 is None or r1 != int(r1) or r0 != 0.0:
+                rep.broken_obligation('correspondence:generated-bspline-bookkeeping-vs-implementation',
+                                      {'kernel_widths': cnt, 'order': d, 'what': 'splev did not receive an integer knot vector / a range starting at 0', 'got': [kv, k, r0, r1]})
+                continue
+            kterms.append('(knots_ok %d %d %d %d [%s])' % (cnt, d, k, int(r1), '; '.join('(%d)' % v for v in kv))); kown.append((ci, cnt, d, kv, k, r1))
+        try:
+            kres = vlib.run_coq_cases('c18k', hdr, 'fun x : list Z => x', kterms, per_file=400, nested=True) if kterms else []
+            nb = 0
+            for (ci, cnt, d, kv, k, r1), z in zip(kown, kres):
+                if list(z) != [1, 1, 1] and nb < 3:
+                    nb += 1
+                    rep.broken_obligation('correspondence:generated-bspline-bookkeeping-vs-implementation',
+                                          {'kernel_widths': cnt, 'order_requested': d, 'degree_passed_to_splev': k, 'knots_passed_to_splev': kv, 'range_end': r1,
+                                           'generated model agrees on [degree, knots, range end]': list(z)})
+        except RuntimeError as e:
+            rep.broken_obligation('correspondence:generated-bspline-bookkeeping-evaluation', str(e)[-600:])
+        rep.cov['bspline_bookkeeping'] = {'bspline_calls_compared': len(kterms),
+                                          'distinct (widths, order)': len({(cnt, d) for _, (cnt, d, *_r) in knots})}
     # ---- the model inside Coq on the recorded oracle answers
     model = None
     t_coq = time.time()
